@@ -137,6 +137,13 @@ func main() {
 		}
 		return
 	}
+	// The order in which a process first touches the library is a dimension
+	// too: every third job starts with verifications (before any key is
+	// derived or anything is signed), the others with whatever the first
+	// history does.
+	if (*from/7)%3 == 1 {
+		sign.VerifyFirstWarmUp()
+	}
 	for i := *from; i < *from+*n; i++ {
 		res := runOne(*world, *prop, *variant, *seed, i, nil, *trace)
 		if len(res.Violations) > 0 && !*trace && res.Cfg["abandoned"] != true {
